@@ -1,4 +1,5 @@
 import Femio.Model.QueryCache
+import Femio.Model.StoredMetric
 import Femio.Gen.Tables
 import Mathlib.Tactic.Linarith
 
@@ -448,5 +449,59 @@ example : let w1 := (run ⟨false⟩ r0 w0 [.query ⟨1, 1, 0⟩, .modify 1]).1
 
 /-- the generated capacity table names every cached method once -/
 theorem C19_lru_sizes_positive : Femio.Gen.lruSizes.all (fun e => decide (0 < e.2)) = true := by decide
+
+/-! ### The derived variable stored in the mesh's own variable table (`Model/StoredMetric.lean`) -/
+namespace Stored
+
+/-- A volume query that RAISES leaves no table behind (tree configuration: blocks are evaluated with `update=False`, only the
+assembled and validated result is stored), so every later query — whatever its options — is evaluated from the mesh exactly as
+on a freshly built equal mesh. -/
+theorem C19_failed_query_invisible (cfg : Cfg) (h : cfg.storePerBlock = false) (o o' : Opts) (blocks : List (List Int))
+    (hfail : (query cfg o blocks none).1 = none) :
+    (query cfg o blocks none).2 = none ∧ query cfg o' blocks (query cfg o blocks none).2 = query cfg o' blocks none := by
+  have h2 : (query cfg o blocks none).2 = none := by
+    unfold query at hfail ⊢
+    cases he : evalBlocks o blocks with
+    | mk r p =>
+      cases r with
+      | some r => simp [he] at hfail
+      | none => simp [h]
+  exact ⟨h2, by rw [h2]⟩
+
+/-- non-vacuity: a tet (6V = 1) and an inverted hex (6V = -6); the default query raises -/
+example : (query tree ⟨true, false⟩ [[1], [-6]] none).1 = none := by decide
+
+/-- Writing every block to the table as soon as it is evaluated (seeded change C19-9) makes a failed query visible: after the
+default query has raised on the inverted hex, the tolerant query returns the table of the tet block only. -/
+theorem C19_partial_table_counterexample :
+    let cfg : Cfg := ⟨true, .drop⟩
+    let t := (query cfg ⟨true, false⟩ [[1], [-6]] none).2
+    (query cfg ⟨false, false⟩ [[1], [-6]] t).1 = some [1] ∧ (query cfg ⟨false, false⟩ [[1], [-6]] none).1 = some [1, -6] := by decide
+
+/-- `make_elements_positive` drops the stored table (tree configuration): the next query is evaluated from the modified mesh, as
+on a freshly built equal mesh, whatever was stored before. -/
+theorem C19_make_positive_drops_table (cfg : Cfg) (h : cfg.onPositive = .drop) (o : Opts) (block : List Int) (table : Table) :
+    query cfg o [(makePositive cfg block table).1] (makePositive cfg block table).2 = query cfg o [block.map iabs] none := by
+  simp [makePositive, h]
+
+example : (query tree ⟨true, false⟩ [(makePositive tree [1, -1, 1] (some [1, 1, 1])).1] (makePositive tree [1, -1, 1] (some [1, 1, 1])).2).1
+    = some [1, 1, 1] := by decide
+
+/-- Negating the rows of the permuted elements instead (seeded change C19-8) is wrong whenever the table holds ABSOLUTE values:
+[absolute query, make_elements_positive, default query] raises although every element of the modified mesh is positive. -/
+theorem C19_make_positive_flip_counterexample :
+    let cfg : Cfg := ⟨false, .flip⟩
+    let t := (query cfg ⟨false, true⟩ [[1, -1, 1]] none).2
+    let mt := makePositive cfg [1, -1, 1] t
+    mt.1 = [1, 1, 1] ∧ (query cfg ⟨true, false⟩ [mt.1] mt.2).1 = none ∧ (query cfg ⟨true, false⟩ [mt.1] none).1 = some [1, 1, 1] := by
+  decide
+
+/-- The open finding `options-ignored` in the model: the table stored by an absolute query is returned to a signed query. -/
+theorem C19_stored_options_ignored_counterexample :
+    let t := (query tree ⟨false, true⟩ [[1, -1, 1]] none).2
+    (query tree ⟨false, false⟩ [[1, -1, 1]] t).1 = some [1, 1, 1] ∧ (query tree ⟨false, false⟩ [[1, -1, 1]] none).1 = some [1, -1, 1] := by
+  decide
+
+end Stored
 
 end Femio.C19
